@@ -1,0 +1,28 @@
+// Copyright 2023 StreamNative, Inc.
+//
+// Licensed under the Apache License, Version 2.0 (the "License");
+// you may not use this file except in compliance with the License.
+// You may obtain a copy of the License at
+//
+//     http://www.apache.org/licenses/LICENSE-2.0
+//
+// Unless required by applicable law or agreed to in writing, software
+// distributed under the License is distributed on an "AS IS" BASIS,
+// WITHOUT WARRANTIES OR CONDITIONS OF ANY KIND, either express or implied.
+// See the License for the specific language governing permissions and
+// limitations under the License.
+
+//go:build verif
+
+package kv
+
+// VerifCheckpoint writes the durable state of the database (flushed tables and manifest, not the
+// memtable: the database runs without a WAL) to dir. That is what a crash at this instant leaves.
+func (p *Pebble) VerifCheckpoint(dir string) error {
+	return p.db.Checkpoint(dir)
+}
+
+// VerifFlushCount returns the number of memtable flushes so far.
+func (p *Pebble) VerifFlushCount() int64 {
+	return p.db.Metrics().Flush.Count
+}
